@@ -234,6 +234,17 @@ func (env *SpecEnv) ident(name string) (SpecVal, error) {
 			return r, err
 		}
 	}
+	if env.letDepth > 0 && x.fn != nil {
+		// lets name entry values: a parameter that the code reassigns is, inside a let,
+		// the value the function was called with
+		for _, p := range x.fn.Params {
+			if p.Name() == name {
+				if pv, ok := x.vals[p]; ok {
+					return SpecVal{V: pv, Go: p.Type()}, nil
+				}
+			}
+		}
+	}
 	if v, ok := env.vars[name]; ok {
 		return v, nil
 	}
